@@ -10,6 +10,12 @@ Safety periods sit on the lattice around the decisive differences.  Three verdic
   * the model driver (`check_last_skr_and_new_skr`, `safety_check`),
   * `region()` below, transliterated from the C09 statement.
 impl != region -> failing input of the property (VIOLATION);  impl != model -> broken tie (disagreement).
+Entry-point stream (`run_glue_stream`): the real ksrsigner() with loaders / signer / writer stubbed decides whether the
+freshly signed SKR reaches the output file.  Every picked pair runs under all four flag subsets with the previous SKR
+named (a) on the command line only, (b) in the configuration (`filenames.previous_skr`) only, (c) in both places — the
+configuration then names ANOTHER previous SKR (one under which the verdict is the opposite, where the stream has one; the
+command line wins) — and (d) nowhere (nothing to check against: the SKR is written).  Chain flags are off, so a
+publish- / retire-safety violation is the ONLY thing between the signed SKR and the file.
 """
 
 from __future__ import annotations
@@ -18,12 +24,12 @@ import itertools
 from typing import Any
 
 import lib
-from corr_C08 import base_ksr, glue_run, mk_key, mk_sig, response_from_j
+from corr_C08 import base_ksr, mk_key, mk_sig, response_from_j
 from lib import DAY_US, Result, request_policy_j, response_j, run_driver, run_impl, same_outcome, us_dt, us_td
 
 DRIVER = "kskm_driver_pkgb"
 ASSUMPTIONS = [
-    "entry-point stream: ksrsigner() is run with load_skr / load_ksr / init_pkcs11_modules / create_skr / output_skr_xml replaced by recording stubs; only the position and effect of the check_last_skr_and_new_skr call relative to the write is observed",
+    "entry-point stream: ksrsigner() is run with load_skr / load_ksr / init_pkcs11_modules / create_skr / output_skr_xml replaced by recording stubs; only the position and effect of the check_last_skr_and_new_skr call relative to the write, and WHICH previous-SKR file name (command line / configuration) reaches load_skr, are observed (whole ceremonies with real files: C03's safety-only gates and C10)",
     "the two checks read nothing but the two Response objects and their own flags; no token, clock or verifier is involved",
     "bundles are built from schemas the way sign_bundles() assembles them (publish ∪ sign as flags 257, revoke as flags 385 overriding, one signature per signing key); the signing itself is C01/C02's subject",
 ]
@@ -352,10 +358,63 @@ def judge(res: Result, last: Any, new: Any, case: Any, obs: dict[str, Any], mode
             res.disagreement(f"{what}: model != implementation", case.full(), i_out, m)
 
 
+PREV_SOURCES = ["cli", "config", "both", "none"]
+CLI_PREV, CFG_PREV = "prev-on-command-line.xml", "prev-in-configuration.xml"
+
+
+def glue_run9(ksr: Any, by_file: dict[str, Any], new: Any, policy: Any, source: str) -> tuple[list[str], Any]:
+    """The real kskm.tools.ksrsigner.ksrsigner() with the file loaders, token initialisation, create_skr and the SKR writer
+    replaced by recording stubs; check_skr_and_ksr and check_last_skr_and_new_skr are the real ones.  `source` says where
+    the previous SKR's file name is given: "cli" (--previous_skr), "config" (filenames.previous_skr), "both", "none";
+    the load_skr stub answers with `by_file[<the name it was asked for>]`.  Returns (ordered effects, outcome)."""
+    import contextlib
+    import io
+    import logging
+    from argparse import Namespace
+    from pathlib import Path
+    from types import SimpleNamespace
+
+    import kskm.ksr
+    import kskm.misc.hsm
+    import kskm.skr
+    import kskm.tools.ksrsigner as ks
+
+    events: list[str] = []
+
+    def rec(name: str, value: Any) -> Any:
+        events.append(name)
+        return value
+
+    def load_prev(fn: Any, pol: Any, log_contents: bool = False) -> Any:
+        events.append("load_skr:" + Path(str(fn)).name)
+        return by_file[Path(str(fn)).name]
+
+    args = Namespace(
+        previous_skr=CLI_PREV if source in ("cli", "both") else None, ksr="ksr.xml", skr="out.xml", force=True, schema="normal", hsm=None,
+        log_ksr_contents=False, log_skr_contents=False, log_previous_skr_contents=False, config=None,
+    )
+    filenames = SimpleNamespace(previous_skr=Path(CFG_PREV) if source in ("config", "both") else None, input_ksr=None, output_skr=None)
+    config = SimpleNamespace(get_schema=lambda name: None, response_policy=None, request_policy=policy, filenames=filenames)
+    saved = (kskm.skr.load_skr, kskm.ksr.load_ksr, kskm.misc.hsm.init_pkcs11_modules, ks.create_skr, ks.output_skr_xml)
+    kskm.skr.load_skr = load_prev
+    kskm.ksr.load_ksr = lambda fn, pol, log_contents=False: rec("load_ksr", ksr)
+    kskm.misc.hsm.init_pkcs11_modules = lambda config, name=None: rec("init_modules", [])
+    ks.create_skr = lambda request, schema, p11modules, config: rec("create_skr", new)
+    ks.output_skr_xml = lambda skr, fn, log_contents=False: rec("write", None)
+    try:
+        with contextlib.redirect_stdout(io.StringIO()):
+            out = run_impl(lambda: ks.ksrsigner(logging.getLogger("c09-glue"), args, config), lambda x: x)
+    finally:
+        kskm.skr.load_skr, kskm.ksr.load_ksr, kskm.misc.hsm.init_pkcs11_modules, ks.create_skr, ks.output_skr_xml = saved
+    return events, out
+
+
 def run_glue_stream(res: Result, pairs: list[Pair], r: Any, tier: str) -> None:
     """The entry point: a freshly signed SKR is written only if check_last_skr_and_new_skr accepted it.  The real
-    ksrsigner() runs with loaders / create_skr / writer stubbed (corr_C08.glue_run); the chain flags are off so that
-    nothing but C09's rules stands between the signed SKR and the output file."""
+    ksrsigner() runs with loaders / create_skr / writer stubbed; the chain flags are off so that
+    nothing but C09's rules stands between the signed SKR and the output file.  Every picked pair x flag subset runs with the
+    previous SKR named on the command line, in the configuration, in both places (the configuration names another one) and
+    nowhere."""
     from kskm.common.config_misc import RequestPolicy
     from kskm.signer.policy import check_last_skr_and_new_skr
 
@@ -367,25 +426,48 @@ def run_glue_stream(res: Result, pairs: list[Pair], r: Any, tier: str) -> None:
         if kind not in seen:
             seen.add(kind)
             picked.append(p)
-    PRE = ["load_skr", "load_ksr", "init_modules", "create_skr"]
+    # for the "both" form: previous SKRs of the stream under which a given new SKR is accepted / refused with every check on
+    all_on = {f: True for f in FLAGS}
+
+    def verdict(last: Any, new: Any, flags: dict[str, bool]) -> bool | None:
+        reg = region(last, new)
+        return None if reg is None else all(reg[f] for f in FLAGS if flags[f])
+
+    candidates = [p.last for p in picked if p.last.bundles][:: max(1, len(picked) // 12)]
     for p in picked:
         ksr = base_ksr(p.last, 2)
         lj, nj = response_j(p.last), response_j(p.new)
         for flags in flag_sets():
             policy = RequestPolicy(check_chain_keys=False, check_chain_overlap=False, check_chain_keys_in_hsm=False, **flags)
-            events, out = glue_run(ksr, p.last, p.new, policy, None, "none")
             direct = run_impl(lambda: check_last_skr_and_new_skr(p.last, p.new, policy))
-            case = Case("glue:" + p.tag, flags, lj, nj)
-            res.count(["glue", p.tag, flags])
-            res.bump("glue:" + ("written" if "write" in events else "stopped"))
             reg = region(p.last, p.new)
-            if reg is not None:
-                want = all(reg[f] for f in FLAGS if flags[f])
-                if ("write" in events) != want or (out == {"ok": True}) != want:
-                    res.violation("ksrsigner(): an SKR is written although / not written because the safety region says otherwise", case.full(), key="glue:" + p.tag.split(":")[0], effects=events, outcome=out, documented_region_accepts=want, clauses=reg)
-            expect = PRE + (["write"] if "ok" in direct else [])
-            if events != expect or (("ok" in direct) and out != {"ok": True}) or (("ok" not in direct) and out != direct):
-                res.disagreement("ksrsigner(): effects / outcome differ from check_last_skr_and_new_skr's verdict at the documented call site", case.full(), {"effects": events, "outcome": out}, {"effects": expect, "check_last_skr_and_new_skr": direct})
+            want_here = verdict(p.last, p.new, flags)
+            # the other previous SKR for the "both" form: preferably one under which the documented verdict is the opposite
+            other = next((c for c in candidates if c is not p.last and want_here is not None and verdict(c, p.new, flags) not in (None, want_here)), None)
+            opposite = other is not None
+            if other is None:
+                other = next((c for c in candidates if c is not p.last), p.last)
+            for source in PREV_SOURCES:
+                by_file = {CLI_PREV: p.last, CFG_PREV: other if source == "both" else p.last}
+                pre = (["load_skr:" + (CLI_PREV if source in ("cli", "both") else CFG_PREV)] if source != "none" else []) + ["load_ksr", "init_modules", "create_skr"]
+                events, out = glue_run9(ksr, by_file, p.new, policy, source)
+                case = Case(f"glue:{source}:" + p.tag, flags, lj, nj)
+                res.count(["glue", source, p.tag, flags])
+                res.bump(f"glue:{source}:" + ("written" if "write" in events else "stopped"))
+                if source == "both":
+                    res.bump("glue:both:configuration names a previous SKR with the " + ("opposite" if opposite else "same / no") + " verdict")
+                if source == "none":
+                    # no previous SKR: nothing to check against, the SKR is written
+                    if events != pre + ["write"] or out != {"ok": True}:
+                        res.violation("ksrsigner() without a previous SKR: unexpected effects", case.full(), key="glue:none", effects=events, outcome=out)
+                    continue
+                if reg is not None:
+                    want = bool(want_here)
+                    if ("write" in events) != want or (out == {"ok": True}) != want:
+                        res.violation("ksrsigner(): an SKR is written although / not written because the safety region says otherwise", case.full(), key=f"glue:{source}:" + p.tag.split(":")[0], previous_skr_named_in=source, effects=events, outcome=out, documented_region_accepts=want, clauses=reg)
+                expect = pre + (["write"] if "ok" in direct else [])
+                if events != expect or (("ok" in direct) and out != {"ok": True}) or (("ok" not in direct) and out != direct):
+                    res.disagreement("ksrsigner(): effects / outcome differ from check_last_skr_and_new_skr's verdict at the documented call site", case.full(), {"effects": events, "outcome": out}, {"effects": expect, "check_last_skr_and_new_skr": direct}, previous_skr_named_in=source)
 
 
 def run(tier: str, driver_ok: bool) -> Result:
@@ -396,7 +478,9 @@ def run(tier: str, driver_ok: bool) -> Result:
         "co-signer of a revoked key vanishes, gap right after signing, third key joins) x j=1..9 x 4 previous schemas x retire periods; publish point on "
         "{-1d,-1s,0,+1s,+1d} around the previous last bundle's inception and expiration (by period and by first inception); retire point on {-1s,0,+1s} "
         "around the inception of slots k-1,k,k+1 with the previous signer unpublished from/at slot k; REVOKE-bit variants of the flags value; degenerate "
-        "shapes; random schemas; every pair under all 4 flag subsets, each half also on its own; non-trivial = distinct (pair, flags) input"
+        "shapes; random schemas; every pair under all 4 flag subsets, each half also on its own; entry point: sampled pairs x 4 flag subsets x previous SKR "
+        "named on the command line / in the configuration / both (configuration names another SKR, opposite verdict where available) / nowhere; "
+        "non-trivial = distinct (pair, flags[, previous-SKR source]) input"
     )
     r = lib.rng("C09")
     pairs = scenarios(r, tier)
@@ -434,7 +518,9 @@ def replay(obj: dict[str, Any]) -> Any:
         from kskm.common.config_misc import RequestPolicy
 
         pol = RequestPolicy(check_chain_keys=False, check_chain_overlap=False, check_chain_keys_in_hsm=False, **case["flags"])
-        ev, out = glue_run(base_ksr(last, 2), last, new, pol, None, "none")
+        source = case["tag"].split(":")[1] if case["tag"].split(":")[1] in PREV_SOURCES else "cli"
+        # (in the "both" form the configuration named another previous SKR; the one that counts is replayed in both places)
+        ev, out = glue_run9(base_ksr(last, 2), {CLI_PREV: last, CFG_PREV: last}, new, pol, source)
         obs["halves"] = dict(obs["halves"])
         obs["ksrsigner_effects"], obs["ksrsigner_outcome"] = ev, out
     models = run_driver(lines, exe=DRIVER)
